@@ -1,6 +1,7 @@
 package props
 
 import (
+	"bytes"
 	"encoding/binary"
 	"fmt"
 
@@ -113,9 +114,23 @@ func (m *ctModel) words() (val, mask uint32) {
 	return
 }
 
+// c18Prev: the match field built at the previous check and the encoding it had then. Match fields built from
+// different builder states are independent values: building the next one must not change the earlier one.
+var c18Prev struct {
+	f   *of.MatchField
+	enc []byte
+	seq []string
+}
+
 func c18Check(c *fw.Ctx, st *of.CTStates, m *ctModel, lastOp string, seq []int) bool {
 	f := of.NewCTStateMatchField(st)
+	if c18Prev.f != nil {
+		if pb, perr := c18Prev.f.MarshalBinary(); perr != nil || !bytes.Equal(pb, c18Prev.enc) {
+			c.Violation(lastOp, "value", "earlier-field-changed", fmt.Sprintf("the ct_state match built after sequence %v encoded to %x; after building another one (sequence %v) it encodes to %x", c18Prev.seq, c18Prev.enc, c18Names(seq), pb))
+		}
+	}
 	b, err := f.MarshalBinary()
+	c18Prev.f, c18Prev.enc, c18Prev.seq = f, append([]byte(nil), b...), c18Names(seq)
 	if err != nil || len(b) != 12 {
 		c.Violation(lastOp, "encoding", "ct_state-field", fmt.Sprintf("encoding %x err %v, want 12 bytes; sequence %v", b, err, c18Names(seq)))
 		return false
